@@ -423,9 +423,9 @@ func (c ecase) project(f int) ecase {
 // ---- enumeration ----
 
 type e2eStats struct {
-	evals, nontrivial, worlds, failing, shuffleEvals, configs, misaligned, misalignedCDB, reduced int64
-	cacheEvals, cacheSeqs, cacheHits, cacheWorlds                                                 int64
-	bySize                                                                                        [6]int64
+	evals, nontrivial, worlds, failing, shuffleEvals, configs, misaligned, misalignedCDB, reduced, beyond int64
+	cacheEvals, cacheSeqs, cacheHits, cacheWorlds                                                         int64
+	bySize                                                                                                [6]int64
 }
 
 type e2ePlan struct {
@@ -707,7 +707,7 @@ func report(r *vlib.Run, w *world, s slot, cl string, m int, keys, shuffle []uin
 	for _, kind := range o.Kinds {
 		// (a case seen while a shuffle draw was varied is first re-judged with the default shuffle
 		// draws: if it fails all the same, the shuffle is not part of the minimal case)
-		if cc, ok := compact(w, s, cl, m, keys); ok && kind != "noresponse" && (shuffle == nil || cc.fails(kind)) {
+		if cc, ok := compact(w, s, cl, m, keys); ok && (shuffle == nil || cc.fails(kind)) {
 			mc := cc
 			for {
 				nx := mc.minimise(kind).simplify(kind)
@@ -724,11 +724,7 @@ func report(r *vlib.Run, w *world, s slot, cl string, m int, keys, shuffle []uin
 			continue
 		}
 		larger()
-		mc := *c
-		if kind != "noresponse" {
-			mc = c.minimise(kind)
-		}
-		emit(r, mc, kind, c.candText())
+		emit(r, c.minimise(kind), kind, c.candText())
 	}
 }
 
@@ -741,27 +737,59 @@ func sectName(s slot) string {
 	return s.Sect + "-additional"
 }
 
-// a configuration in which the code takes more than maxFullDraws key draws (a target of both families named twice
-// while none of its candidates has a positive weight) is enumerated over the reduced draw alphabet
-const maxFullDraws = 6
+// The draw sequences of one configuration (slot, client, maxAnswer) are bounded whatever the code under test
+// does: all sequences over the 5-value alphabet when there are at most seqBudget of them (always, when the code
+// takes one draw per row: at most 6 rows); otherwise over the largest of the smaller alphabets below that fits.
+// A misaligned configuration (draws not one per row: on the unchanged tree a target named twice with no
+// positive-weight candidate, where which draw goes where matters least) has the smaller budget, so that a tree
+// that takes more draws than rows is still judged in bounded time. Beyond that only the first draws are varied.
+const seqBudget, seqBudgetMisaligned = 15625, 2048
 
-var reducedAlphabet = []uint32{0, 1 << 31, 1<<32 - 1}
+var smallerAlphabets = [][]uint32{{0, 1 << 31, 1<<32 - 1}, {0, 1<<32 - 1}}
+
+// drawPlan: the alphabet and the number of leading draws varied over it (the others are 2^31).
+func drawPlan(nk int, aligned bool) ([]uint32, int) {
+	budget := int64(seqBudget)
+	if !aligned {
+		budget = seqBudgetMisaligned
+	}
+	fits := func(a, n int) bool {
+		p := int64(1)
+		for i := 0; i < n; i++ {
+			if p *= int64(a); p > budget {
+				return false
+			}
+		}
+		return true
+	}
+	for _, alpha := range append([][]uint32{drawAlphabet}, smallerAlphabets...) {
+		if fits(len(alpha), nk) {
+			return alpha, nk
+		}
+	}
+	last := smallerAlphabets[len(smallerAlphabets)-1]
+	n := nk
+	for !fits(len(last), n) {
+		n--
+	}
+	return last, n
+}
 
 // enumerate serves, for one slot and client of a world, every maxAnswer in ms
 // and every sequence of key draws over the draw alphabet (shuffle draws
 // defaulted), then - if asked - each shuffle draw varied over the alphabet with
 // the keys fixed. visit returns false to stop.
 func enumerate(w *world, s slot, cl string, ms []int, shuffle bool, visit func(m int, keys, shuf []uint32, shuffled bool, o observation) bool) {
-	nk, _ := w.keyDraws(s, cl)
+	nk, aligned := w.keyDraws(s, cl)
 	if s.Sect != "answer" {
 		ms = []int{1}
 	}
-	alpha := drawAlphabet
-	if nk > maxFullDraws {
-		alpha = reducedAlphabet
-	}
+	alpha, varied := drawPlan(nk, aligned)
 	keys := make([]uint32, nk)
-	digits := make([]int, nk)
+	for i := range keys {
+		keys[i] = 1 << 31
+	}
+	digits := make([]int, varied)
 	for _, m := range ms {
 		for i := range digits {
 			digits[i] = 0
@@ -774,7 +802,7 @@ func enumerate(w *world, s slot, cl string, ms []int, shuffle bool, visit func(m
 				return
 			}
 			i := 0
-			for i < nk {
+			for i < varied {
 				digits[i]++
 				if digits[i] < len(alpha) {
 					break
@@ -782,7 +810,7 @@ func enumerate(w *world, s slot, cl string, ms []int, shuffle bool, visit func(m
 				digits[i] = 0
 				i++
 			}
-			if i == nk {
+			if i == varied {
 				break
 			}
 		}
@@ -856,8 +884,11 @@ func runPlan(r *vlib.Run, p e2ePlan, st *e2eStats) {
 					}
 				}
 			}
-			if nk > maxFullDraws {
+			if alpha, varied := drawPlan(nk, aligned); len(alpha) < len(drawAlphabet) || varied < nk {
 				st.reduced++
+				if varied < nk {
+					st.beyond++
+				}
 			}
 			lastM := 0
 			enumerate(w, s, cl, p.ms, p.shuffle, func(m int, keys, shuf []uint32, shuffled bool, o observation) bool {
